@@ -348,6 +348,19 @@ def check_property(prop, tier="quick", seed=0):
                             o["detail"] += " | solver counter-model not replayable; failing input found by grid search: violates %s" % gbad
                             what, confirmed = gwhat, True
                             break
+                type_confusion = re.search(r"\b(TypeError|AttributeError|NotImplementedError|NameError|UnboundLocalError)\(", o.get("detail") or "")
+                if not confirmed and o.get("kind") == "no-raise" and type_confusion:
+                    # an exception of a type-confusion class on a symbolic path that the real code raises neither on
+                    # the counter-model nor on any input of the grid: such errors do not depend on the values of
+                    # the data, so this is a gap of the model (an operation of a model object Python could not
+                    # resolve), not a violation.  Undecided; the grid search above was its bounded stand-in.
+                    o = dict(o)
+                    o["status"] = "undecided"
+                    o["detail"] = "model gap (%s on a symbolic path, not reproduced by the real code on the counter-model or the grid): %s" % (type_confusion.group(1), o["detail"][:300])
+                    undecided.append(o)
+                    standin_cases += 1
+                    all_obs[-1] = o
+                    continue
                 if confirmed:
                     path = write_replay(prop, case, o["name"], o["model"], {"solver_output": o["detail"], "real_code": what, "confirmed": True})
                     lines.append("VIOLATION property=%s replay=%s" % (prop, path))
